@@ -41,7 +41,7 @@ struct GrammarSpec {
   std::string tag;               // human-readable origin (e.g. "suite-E", "gen")
 };
 
-enum OpKind { OP_CREATE, OP_SET, OP_DEFINE, OP_PARSE, OP_ERRQ, OP_WALK, OP_FREE_TREE, OP_FREE_GRAMMAR };
+enum OpKind { OP_CREATE, OP_SET, OP_DEFINE, OP_PARSE, OP_ERRQ, OP_WALK, OP_FREE_TREE, OP_FREE_GRAMMAR, OP_CONFIG };
 enum Setter { S_LOOKAHEAD, S_DEBUG, S_ONE_PARSE, S_COST, S_RECOVERY, S_MATCH };
 enum AllocMode { AM_CUSTOM_FREE, AM_CUSTOM_NOFREE, AM_DEFAULT, AM_NULL_FREE };
 
@@ -64,6 +64,8 @@ struct Op {
   int input = 0;      // index into Plan::inputs
   AllocMode alloc = AM_CUSTOM_FREE;
   Fault fault;
+  // OP_CONFIG: the simulator flips its internal choices in mid-run
+  int c_knobs = 0, c_cache_skip = 0, c_selfcheck = 0, c_realloc = 0, c_sink = 0;
 };
 
 struct Plan {
@@ -95,6 +97,7 @@ struct Pool {
 };
 Pool make_pool(uint64_t pool_seed);
 Plan gen_hist_plan(uint64_t seed, bool oom, int focus = 0);
+const Pool &pool_for_seed(uint64_t seed);
 GrammarSpec gen_grammar(Rng &r);
 std::vector<int> gen_sentence(Rng &r, const GrammarSpec &g, int max_len);
 const std::vector<GrammarSpec> &handwritten_good();
